@@ -110,3 +110,52 @@ def set_partitions_as_sorted_ties(n):
             r.append(r[-1] + c)
         out.append(tuple(r))
     return out
+
+
+# ------------------------------------------------------------------------------------------------
+# exhaustive small pseudo-observation arrays (C10, C11)
+
+_PATTERNS = {}
+
+
+def rank_patterns(n):
+    """All (tie pattern of U in sorted order, weak order of V) pairs for length n."""
+    if n not in _PATTERNS:
+        _PATTERNS[n] = [(u, v) for u in set_partitions_as_sorted_ties(n) for v in weak_orders(n)]
+    return _PATTERNS[n]
+
+
+def ranks_to_unit(r, mapping):
+    """Map dense ranks 0..k-1 to pseudo-observations: 'open' -> (r+1)/(k+1); 'closed' -> r/(k-1) (touches 0 and 1)."""
+    r = np.asarray(r, float)
+    k = int(r.max()) + 1
+    if mapping == 'open':
+        return (r + 1) / (k + 1)
+    if k == 1:
+        return np.full(len(r), 0.5)
+    return r / (k - 1)
+
+
+def pattern_array(n, idx, mapping):
+    u, v = rank_patterns(n)[idx]
+    return np.column_stack([ranks_to_unit(u, mapping), ranks_to_unit(v, mapping)])
+
+
+def designed_tau_array(n, tau_target):
+    """A permutation dataset of size n whose Kendall tau is as close as possible to tau_target: start from the
+    identity and apply adjacent transpositions (each lowers tau by 2/(n(n-1)/2)) in a fixed bubble order."""
+    n0 = n * (n - 1) // 2
+    inv = int(round((1 - tau_target) * n0 / 2))
+    perm = list(range(n))
+    # build the permutation with exactly `inv` inversions (Lehmer code, greedy)
+    code = []
+    rem = inv
+    for i in range(n):
+        c = min(rem, n - 1 - i)
+        code.append(c)
+        rem -= c
+    avail = list(range(n))
+    perm = [avail.pop(c) for c in code]
+    u = (np.arange(n) + 1.0) / (n + 1)
+    v = (np.asarray(perm) + 1.0) / (n + 1)
+    return np.column_stack([u, v])
